@@ -1912,13 +1912,12 @@ fn c14_edit(input: &Input, obs: &mut Obs) -> Result<(), Fail> {
     let p = input.params();
     let mut slice = C14_BASES[p[0] as usize].to_vec();
     let pos = p[1] as usize;
-    const SYMS: [u8; 12] = [b' ', b'\r', b'\n', b':', 0, 0xff, b'G', b'0', b'9', b'/', b'+', b'\t'];
     match p[2] {
         0 => {
             slice.remove(pos);
         }
-        1 => slice[pos] = SYMS[p[3] as usize],
-        _ => slice.insert(pos, SYMS[p[3] as usize]),
+        1 => slice[pos] = p[3] as u8,
+        _ => slice.insert(pos, p[3] as u8),
     }
     c14_check(&slice, obs)?;
     obs.nontrivial = true;
@@ -1936,7 +1935,7 @@ fn c14_edit_enum(_tier: Tier, shard: u64, nshards: u64, f: &mut dyn FnMut(&[u64]
                 if op < 2 && pos as usize >= base.len() {
                     continue;
                 }
-                let nsym = if op == 0 { 1 } else { 12 };
+                let nsym = if op == 0 { 1 } else { 256 };
                 for sym in 0..nsym {
                     i += 1;
                     if i % nshards == shard && !f(&[b as u64, pos, op, sym]) {
@@ -1996,7 +1995,7 @@ fn c14_plan(tier: Tier) -> Vec<Job> {
     let q = tier == Tier::Quick;
     vec![
         Job { sub: "diff", kind: JobKind::Pbt { cases: if q { 500_000 } else { 8_000_000 }, max_len: 300 }, smallbuf: false },
-        Job { sub: "edit", kind: JobKind::Enum { f: c14_edit_enum, bound: "4 canonical slices x every byte position x {delete, replace by each of 12 symbols, insert each of 12 symbols}" }, smallbuf: false },
+        Job { sub: "edit", kind: JobKind::Enum { f: c14_edit_enum, bound: "4 canonical slices x every byte position x {delete, replace by each of the 256 byte values, insert each of the 256 byte values}" }, smallbuf: false },
         Job { sub: "lengths", kind: JobKind::Enum { f: c14_lengths_enum, bound: "3 methods x every Content-Length n in 0..3199 (thorough: 0..12799) x body of n-1, n, n+1 bytes" }, smallbuf: false },
     ]
 }
